@@ -805,14 +805,34 @@ Definition eval_base_spec (c : base_case) : result :=
   | KOOV oovs masked pp targets => seqZ pp (m_seq_oov oovs masked pp targets)
   | KLen masked targets => scalarZ (m_seq_length masked targets)
   | KConf nc s t => match m_confusion nc s t with Some m => RSum [nc; nc] (map zq (concat m)) | None => RErr end
+  | KGridTopK cmax => let g := grid_topk (fun k t s => m_topk k s t) (fun t s => m_accuracy s t) cmax in RSum [Z.of_nat (length g)] (map zq g)
+  | KGridSeq lmax =>
+      let g := grid_seq m_seq_trunc m_seq_length m_seq_token_count m_seq_count lmax in
+      RSum [Z.of_nat (length g)] (map zq g)
   end.
+
+Lemma flat_map_ext' {A B} (f g : A -> list B) l : (forall x, f x = g x) -> flat_map f l = flat_map g l.
+Proof. intros H. induction l as [|x l IH]; cbn; [reflexivity|]. now rewrite H, IH. Qed.
+
+Lemma grid_topk_spec cmax : grid_topk gen_topk gen_accuracy cmax = grid_topk (fun k t s => m_topk k s t) (fun t s => m_accuracy s t) cmax.
+Proof.
+  unfold grid_topk. apply flat_map_ext'. intros c. apply flat_map_ext'. intros s. apply flat_map_ext'. intros t.
+  rewrite gen_accuracy_spec. f_equal. apply map_ext. intros k. now rewrite gen_topk_spec.
+Qed.
+
+Lemma grid_seq_spec lmax : grid_seq gen_seq_trunc gen_seq_length gen_seq_token_count gen_seq_count lmax =
+  grid_seq m_seq_trunc m_seq_length m_seq_token_count m_seq_count lmax.
+Proof.
+  unfold grid_seq. apply flat_map_ext'. intros l. apply flat_map_ext'. intros ts.
+  now rewrite gen_seq_trunc_spec, gen_seq_length_spec, gen_seq_token_count_spec, gen_seq_count_spec.
+Qed.
 
 Lemma eval_base_is_spec c : eval_base c = eval_base_spec c.
 Proof.
   destruct c; cbn [eval_base eval_base_spec];
     rewrite ?gen_topk_spec, ?gen_seq_token_ce_spec, ?gen_seq_ce_spec, ?gen_seq_token_acc_spec,
       ?gen_seq_token_topk_spec, ?gen_seq_token_count_spec, ?gen_seq_count_spec, ?gen_seq_trunc_spec,
-      ?gen_seq_oov_spec, ?gen_seq_length_spec, ?gen_confusion_spec; reflexivity.
+      ?gen_seq_oov_spec, ?gen_seq_length_spec, ?gen_confusion_spec, ?grid_topk_spec, ?grid_seq_spec; reflexivity.
 Qed.
 
 Lemma gen_per_domain_spec {A} nd dom (zero x : A) : gen_per_domain nd dom zero x = per_domain nd dom zero x.
